@@ -166,6 +166,8 @@ pub fn install_panic_hook() {
             else { "<non-string panic payload>".to_string() };
         // normalise /repo/ prefix
         let file = file.strip_prefix("/repo/").map(|s| s.to_string()).unwrap_or(file);
+        // panics inside the standard library: drop the toolchain hash
+        let file = if file.starts_with("/rustc/") { format!("rustc/{}", file.splitn(4, '/').nth(3).unwrap_or("")) } else { file };
         LAST_PANIC.with(|p| *p.borrow_mut() = Some(PanicInfo { file, line, message }));
     }));
 }
